@@ -222,7 +222,12 @@ pub fn replay(case: &J) -> CaseResult {
 fn random_case(u: &mut Choices, sz: Size) -> CaseResult {
     let wide = u.chance(1, 2);
     let doc = if wide { gen_cfn_doc(u, &sz) } else { gen_doc(u, &sz) };
-    let file = if wide { gen_wide_file(u, &doc, sz, false) } else { gen_core_file(u, &doc, sz, true, false) };
+    let mut file = if wide { gen_wide_file(u, &doc, sz, false) } else { gen_core_file(u, &doc, sz, true, false) };
+    // a quarter of the wide programs capture map keys in a variable and count them elsewhere
+    let captures = wide && u.chance(1, 4);
+    if captures {
+        add_capture_idiom(u, &mut file, &doc);
+    }
     let doc_text = doc.to_json();
     let base = print_file(&file);
     let variants = make_variants(u, &file);
@@ -257,6 +262,9 @@ fn random_case(u: &mut Choices, sz: Size) -> CaseResult {
         t.starts_with('r') && t.len() <= 3 && t[1..].chars().all(|c| c.is_ascii_digit())
     });
     classes.push(format!("variants:{}", variants.len().min(10)));
+    if captures {
+        classes.push("has:key-capture".into());
+    }
     if has_ref {
         classes.push("has:rule-reference".into());
     }
@@ -271,7 +279,7 @@ fn random_case(u: &mut Choices, sz: Size) -> CaseResult {
 
 pub fn run(tier: Tier, seed: u64) -> i32 {
     let spec = EvidenceSpec {
-        rule: "Random programs (core and wide fragment, unique rule names, rule references in both directions, shared file-level variables) x documents; 1-3 operations per case out of {permute the lines of one CNF (rule body, when condition, block, filter, type block), permute the alternatives of one line, duplicate a line, duplicate an alternative, permute the rules of the file, duplicate a rule under a fresh name}; all permutations when the permuted sequence has <=4 items, 8 sampled ones otherwise. Every variant is evaluated by the tool and must give every rule of the original (by name) the same status, the same file status, and a copy the status of its original. Cases in which any ordering raises an evaluation error are discarded (the statement's precondition) and counted. Non-trivial: the program has a rule reference or a rule that is not SKIP; distinct by hash of (document, program, first operation).".into(),
+        rule: "Random programs (core and wide fragment, unique rule names, rule references in both directions, shared file-level variables; a quarter of the wide programs capture the keys of a filtered map in a variable - `Resources[ c | Type == 'T' ]` - count them in a file-level `let` and use both in a rule that refers to the capturing rule) x documents; 1-3 operations per case out of {permute the lines of one CNF (rule body, when condition, block, filter, type block), permute the alternatives of one line, duplicate a line, duplicate an alternative, permute the rules of the file, duplicate a rule under a fresh name}; all permutations when the permuted sequence has <=4 items, 8 sampled ones otherwise. Every variant is evaluated by the tool and must give every rule of the original (by name) the same status, the same file status, and a copy the status of its original. Cases in which any ordering raises an evaluation error are discarded (the statement's precondition) and counted. Non-trivial: the program has a rule reference or a rule that is not SKIP; distinct by hash of (document, program, first operation).".into(),
         assumptions: vec!["rule names are unique within a file (the status of a name defined twice with different verdicts depends on definition order by design)".into()],
     };
     execute("C04", tier, seed, spec, &replay, &|run: &Session| {
